@@ -186,6 +186,13 @@ func mutations(f hfield) [][]byte {
 			binary.LittleEndian.PutUint32(b[:], x)
 			out = append(out, b[:])
 		}
+		// a complete frame one byte longer than the client's read buffer (padding in front of the
+		// frame's own bytes): refused as long as the frame limit does not exceed that buffer
+		if n, big := int(v&0xffffff), genConst("c_clientBufioSize", 262144)+1; big > n && big <= 0xffffff {
+			b := make([]byte, 4+big-n)
+			binary.LittleEndian.PutUint32(b[:4], uint32(7)<<24|uint32(big))
+			out = append(out, b)
+		}
 	}
 	return out
 }
